@@ -5,13 +5,26 @@
 package main
 
 import (
+	"os"
+	"runtime/pprof"
+
 	"verif/internal/vk"
 )
 
 func main() {
+	// Development aid: VERIF_PROF=<file> writes a CPU profile (the profile is
+	// only complete if the property function returns through stopProfile).
+	if p := os.Getenv("VERIF_PROF"); p != "" {
+		if f, err := os.Create(p); err == nil {
+			pprof.StartCPUProfile(f)
+		}
+	}
 	vk.Main("remote", map[string]func(){
 		"C21": c21,
 		"C22": c22,
 		"C37": c37,
 	})
 }
+
+// stopProfile flushes the development CPU profile, if any.
+func stopProfile() { pprof.StopCPUProfile() }
